@@ -106,6 +106,9 @@ def worker_init() -> None:
             outcome = st["outcomes"][i] if i < len(st["outcomes"]) else ("timeout",)
             await asyncio.sleep(0.01)  # replies take time: send time < receive time
             if outcome[0] == "reply":
+                hook = st.get("on_reply")
+                if hook is not None:
+                    hook(i)
                 return outcome[1]
             if outcome[0] == "pending-forever":
                 st["pending_polls"] = st.get("pending_polls", 0) + 1
@@ -158,6 +161,8 @@ class Canceller:
         t = b.get("hist_task")
         if b.get("cancelled") or t is None or t.done():
             return []
+        if len(b["st"]["wire"]) < b.get("cancel_not_before", 0):
+            return []  # (long histories: the cancellation is only placed in the part of interest)
 
         def mark() -> None:
             b["cancelled"] = len(b["st"]["wire"])  # number of requests on the wire at the time of the cancel
@@ -191,6 +196,29 @@ def build(item: dict[str, Any], box: dict[str, Any]) -> Any:
         for kf in sorted(item.get("commit_fault", ())):
             # 'database is locked' at COMMIT: sqlite keeps the transaction (with the INSERT) open, the commit can be repeated
             worker.fail_matching.append(("commit:execute:INSERT:scan_result", kf, dbshim.OperationalError("database is locked")))
+        if item.get("cancel_after_reply") is not None:
+            # scripted cancel: requested a few loop iterations after reply number k was handed to the client, i.e. while the client is
+            # still busy recording that exchange (or has just gone on to the next one)
+            def on_reply(i: int) -> None:
+                kc, depth = item["cancel_after_reply"]
+                if i != kc or box.get("cancelled") is not None:
+                    return
+
+                def fire(d: int) -> None:
+                    t = box.get("hist_task")
+                    if d > 0:
+                        run.loop.call_soon(fire, d - 1)
+                    elif t is not None and not t.done():
+                        box["cancelled"] = len(st["wire"])
+                        box["cancel_completed"] = box["completed"]
+                        t.cancel()
+
+                run.loop.call_soon(fire, depth)
+
+            st["on_reply"] = on_reply
+        if item.get("stall"):
+            worker.stall_on, worker.stall_iterations = "execute:INSERT:scan_result", int(item["stall"])
+        box["cancel_not_before"] = item.get("cancel_not_before", 0)
         loop = run.loop
         dbh = G["DBHandler"](path)
         ecu = G["ECU"](G["ScriptTransport"](st), timeout=1.0, max_retry=item.get("max_retry", 0))
@@ -438,9 +466,11 @@ def run_lifecycle(item: dict[str, Any], res: Result) -> None:
     scanner_cls = scan_common.G["ProbeScanner"]
     scanner_cls.PLAN = {"initial": item["initial"], "main": item["main"]}
     kw = {"properties": item["properties"], "ping": item["ping"], "tester_present": False}
-    box = scan_common.run_scanner("ProbeScanner", "UDSScannerConfig", kw, EchoModel(), db=True)
+    box = scan_common.run_scanner("ProbeScanner", "UDSScannerConfig", kw, EchoModel(), db=True, db_opts=item.get("db_opts"))
     res.count("executions")
     res.count("lifecycle_runs")
+    if item.get("db_opts"):
+        res.count("lifecycle_runs_with_db_faults")
     rp = {"item": item}
     if box["status"] != "done" or box.get("exit") != 0:
         res.violate("C11|lifecycle|run-failed", f"scanner run ended with status {box['status']} exit {box.get('exit')} exc {box.get('exc')} [{item}]", rp)
@@ -720,6 +750,13 @@ def items(tier: str, seed: int) -> list[Any]:
         for kc in range(len(seq)):
             out.append(({"steps": steps, "commit_fault": [kc]}, 1, cap))
         out.append(({"steps": steps, "commit_fault": [0, 1, 3]}, 0, cap))
+    # slow disk: more than a thousand rows wait in the writer queue (nothing may be lost, reordered or block the scan), also
+    # when the run is cancelled right after exchange number k (scripted cancel; these long runs are executed on the benign schedule)
+    many = [("req", "22%04x" % (0x1000 + i), ("reply", "62%04xaa" % (0x1000 + i)), False) for i in range(1030)]
+    out.append(({"steps": many, "stall": 12000}, 0, cap))
+    for kc in (999, 1000, 1001, 1002, 1015):
+        for depth in (1, 2, 3, 5):
+            out.append(({"steps": many, "stall": 12000, "cancel_after_reply": [kc, depth]}, 0, cap))
     # many transient errors over one run: every row's first attempt fails / one row fails many times in a row / both
     long_seq = ("read", "dsc2", "read", "nrc", "key", "read", "timeout", "read", "dsc2", "read")
     steps = [("req", ALPHA[a][0], ALPHA[a][1], False) for a in long_seq]
@@ -740,6 +777,12 @@ def items(tier: str, seed: int) -> list[Any]:
             [("implicit", False), ("req", 0x1234), ("req", 0x1235), ("implicit", True), ("req", 0x1236)],
         ):
             out.append(({"lifecycle": True, "initial": initial, "properties": props, "ping": ping, "main": main, "steps": []}, 0, cap))
+            if initial and ping:
+                # slow disk (rows pile up in the writer queue during main) and a transient error in the final run_meta update / in the
+                # writes of teardown: entry_point() must still leave a database that holds every row
+                for fail in ([["execute:UPDATE", 0]], [["commit:execute:UPDATE", 0]], [["execute:UPDATE", 0], ["execute:UPDATE", 1]], []):
+                    out.append(({"lifecycle": True, "initial": initial, "properties": props, "ping": ping, "main": main, "steps": [],
+                                 "db_opts": {"stall_on": "execute:INSERT:scan_result", "stall_iterations": 300, "fail": fail}}, 0, cap))
     # implicit logging toggles, failing run
     for seq in itertools.product(["dsc2", "read", "timeout", "mismatch"], repeat=2):
         a, b = seq
